@@ -151,6 +151,10 @@ impl CompileError for PreprocessError {
 /// Manage files that are returned from the external include handler
 struct FileLoader<'a> {
     file_name_remap: HashMap<String, FileId>,
+
+    /// The file id for each real file name the include handler has reported
+    /// Different include names can reach the same file
+    real_name_remap: HashMap<String, FileId>,
     pragma_once_files: HashSet<FileId>,
     source_manager: &'a mut SourceManager,
     include_handler: &'a mut dyn IncludeHandler,
@@ -175,6 +179,7 @@ impl<'a> FileLoader<'a> {
     ) -> Self {
         FileLoader {
             file_name_remap: HashMap::new(),
+            real_name_remap: HashMap::new(),
             pragma_once_files: HashSet::new(),
             source_manager,
             include_handler,
@@ -198,10 +203,19 @@ impl<'a> FileLoader<'a> {
                 // Load the file
                 let file_data = self.include_handler.load(file_name, parent_name)?;
 
-                // Add it to the source manager
-                let id = self
-                    .source_manager
-                    .add_file(FileName(file_data.real_name), file_data.contents);
+                // Add it to the source manager - unless the same file was loaded under another name
+                // The file must keep its id for #pragma once to apply to it
+                let id = match self.real_name_remap.get(&file_data.real_name) {
+                    Some(id) => *id,
+                    None => {
+                        let real_name = file_data.real_name.clone();
+                        let id = self
+                            .source_manager
+                            .add_file(FileName(file_data.real_name), file_data.contents);
+                        self.real_name_remap.insert(real_name, id);
+                        id
+                    }
+                };
 
                 // Remember the file id
                 self.file_name_remap.insert(file_name.to_string(), id);
